@@ -18,7 +18,7 @@ loop bodies are never named here: they are unfolded through the simp set `tie_un
 set_option linter.unusedSimpArgs false
 set_option linter.unusedVariables false
 namespace TieCompile
-open Spec Compile TieAux
+open Spec Compile TieAuxC
 
 /-- closing tactic shared by the case analyses -/
 macro "tie_close" : tactic =>
@@ -74,11 +74,11 @@ theorem collapse_tie : @Gen.Compile.collapse = @Compile.collapse := by
          simp <;> tie_close)
 
 /-- `compile_cnf` with the `sort_by` call as the permutation parameter `perm` -/
-theorem compileCnf_tie : @Gen.Compile.compileCnf = @TieAux.compileCnfPerm := by
+theorem compileCnf_tie : @Gen.Compile.compileCnf = @TieAuxC.compileCnfPerm := by
   first
   | rfl
   | (funext σ P O perm s cs
-     simp only [Gen.Compile.compileCnf, TieAux.compileCnfPerm, collapse_tie, collapseClauses]
+     simp only [Gen.Compile.compileCnf, TieAuxC.compileCnfPerm, collapse_tie, collapseClauses]
      rw [clauses_loop O]
      · repeat' split
        all_goals tie_close
@@ -203,7 +203,7 @@ theorem uniqueVariables_tie : Gen.Compile.uniqueVariables = fun e => some (Ser.L
 
 The Rust starts with `table.get(&reg)` for every pointer (also constants and literals), the model
 looks only nodes up; they agree on every table whose keys are regular node pointers
-(`TieAux.NodeKeys`: what `table.insert` is called with; preserved, `TieAux.serSddAux_nodeKeys`;
+(`TieAuxC.NodeKeys`: what `table.insert` is called with; preserved, `TieAuxC.serSddAux_nodeKeys`;
 the initial table of `from_sdd` is empty). -/
 
 theorem sddSt_eta (s : Ser.SddSt) : (⟨s.nodes, s.table⟩ : Ser.SddSt) = s := rfl
